@@ -118,10 +118,24 @@ Proof. vm_compute. repeat split; reflexivity. Qed.
         every check (tools/translate_extra.py, translate_tables.py): CountingStrategy with its predicates, COUNTING_STRATEGIES,
         CountingStrategyFlags.__init__, ReadWeightCounter.process_ambiguous / process_inconsistent (floats read as exact rationals),
         ReadAssignmentType with its classification sets, GroupedOutputFormat.  cs_of / rat_of / csf_of (CountingBridgeDefs.v) map the
-        model's constructors to the members of the source's enums.  The library with the proofs is loaded inside each proof, so that
-        an edit of the source that invalidates it is reported against these theorems and the theorems above are still checked. *)
+        model's constructors to the members of the source's enums.  The libraries with the proofs (CountingEnumsBridge.v,
+        CountingBridge.v) are loaded inside the proofs, so that an edit of the source that invalidates one is reported against its theorems and
+        the theorems above are still checked. *)
 From IQ.gen Require Tables Extra.
 From IQ Require Import CountingBridgeDefs.
+(* every member of the source's enums is the image of a constructor of the model (nothing of the source is left unmodelled) *)
+Theorem C02_enums_are_covered : (forall x : Tables.RAT, exists t, rat_of t = x) /\ (forall a b, rat_of a = rat_of b -> a = b).
+Proof.
+From IQ Require CountingEnumsBridge.
+exact (conj CountingEnumsBridge.rat_of_onto CountingEnumsBridge.rat_of_inj). Qed.
+Print Assumptions C02_enums_are_covered.
+(* GroupedOutputFormat.output_matrix / output_linear: the (matrix, linear) pair handed to mk_counter for --counts_format matrix / linear / both *)
+Theorem C02_grouped_format_is_the_source :
+  Extra.GOF_all = [Extra.GOF_matrix; Extra.GOF_linear; Extra.GOF_both] /\ map fmt_of Extra.GOF_all = [(true, false); (false, true); (true, true)].
+Proof.
+From IQ Require CountingEnumsBridge.
+exact CountingEnumsBridge.grouped_format_is_the_source. Qed.
+Print Assumptions C02_grouped_format_is_the_source.
 (* the model's flags and weights are the source's, for every strategy, assignment type and feature count *)
 Theorem C02_weights_are_the_sources : forall s t k,
   process_ambiguous (flags_of s) k = Extra.py_process_ambiguous (Extra.CSF_init (cs_of s)) (Z.of_nat k) /\
@@ -147,16 +161,3 @@ Proof.
 From IQ Require CountingBridge.
 exact CountingBridge.weight_tk_is_the_source. Qed.
 Print Assumptions C02_weight_tk_is_the_source.
-(* every member of the source's enums is the image of a constructor of the model (nothing of the source is left unmodelled) *)
-Theorem C02_enums_are_covered : (forall x : Tables.RAT, exists t, rat_of t = x) /\ (forall a b, rat_of a = rat_of b -> a = b).
-Proof.
-From IQ Require CountingBridge.
-exact (conj CountingBridge.rat_of_onto CountingBridge.rat_of_inj). Qed.
-Print Assumptions C02_enums_are_covered.
-(* GroupedOutputFormat.output_matrix / output_linear: the (matrix, linear) pair handed to mk_counter for --counts_format matrix / linear / both *)
-Theorem C02_grouped_format_is_the_source :
-  Extra.GOF_all = [Extra.GOF_matrix; Extra.GOF_linear; Extra.GOF_both] /\ map fmt_of Extra.GOF_all = [(true, false); (false, true); (true, true)].
-Proof.
-From IQ Require CountingBridge.
-exact CountingBridge.grouped_format_is_the_source. Qed.
-Print Assumptions C02_grouped_format_is_the_source.
